@@ -131,14 +131,12 @@ def analyse(facts, tier):
         obls.append(Obl('C13.R2', fn.name, 'period length >= 0', fn.loc, 'assumed', why='rests on floating-point bookkeeping (carry and delay never negative); not decided', nontrivial=False))
         # the signed clamp itself: in_generatedStereo = (n > 512) ? 512 : n
         clamp = None
-        for b, j, st in cfg.stmts():
-            if st['s'].get('k') == 'DeclStmt':
-                for v in st['s']['decls']:
-                    if 'init' in v:
-                        m = minlike(v['init'])
-                        cs = [const_of(arm) for arm in m if const_of(arm) is not None] if m else []
-                        if len(cs) == 1 and cs[0] >= 64:
-                            clamp = (cs[0], st['loc'], v['id'])
+        for vid_, ms_ in min_defs(fn).items():
+            for m in ms_:
+                cs = [const_of(arm) for arm in m if const_of(arm) is not None]
+                if len(cs) == 1 and cs[0] >= 64:
+                    lns = [a_.get('ln') for a_ in m if isinstance(a_, dict) and a_.get('ln')]
+                    clamp = (cs[0], '%s:%s' % (fn.file, lns[0]) if lns else fn.loc, vid_)
         ok = clamp is not None and clamp[0] <= 512
         obls.append(Obl('C13.R2', fn.name, 'period clamp', clamp[1] if clamp else fn.loc, 'discharged' if ok else 'finding',
                         why='frames = min(n, %d), and 2*%d samples fit m_outBuf[1024]' % (clamp[0], clamp[0]) if ok else 'no clamp of the period to 512 frames'))
